@@ -62,6 +62,8 @@ func c18Blank(c *core.Ctx) string {
 
 var c18CommentBodies = []string{
 	"", "note", " note", " phishing site", "#", " ## phishing", "!x", " a.com b.com", " 1.2.3.4 evil.com", "\tTAB", " see http://x.y/?a=b&c=d",
+	// A marker-like sequence later in the comment is comment text like any other.
+	"## section", " see ads.example##.banner", "unhide: x.example#@#.ad", "first##second", " a#?#b", " x#%#y //", " x#$#y", " ###", " a.example#@?#b",
 	" price: 5$", " 100% ads", " @@||x^", " ,;:[]{}()<>", " $important", "x#y#z", " $$ html", " a$$b", " a$@$b", " cost:$$", "$$x", "$@$y", " $ $", " ?#x", "@#x", "?#x", "%#x", "$#x",
 }
 
@@ -248,7 +250,7 @@ func c18Run(c *core.Ctx, idx int) {
 			listed[n] = append(listed[n], l)
 		}
 	}
-	eng := urlfilter.NewDNSEngine(util.Storage(util.Lines(texts)))
+	eng := urlfilter.NewDNSEngine(util.StorageSplit(c.Rng, texts))
 	for _, l := range lines {
 		if len(c18KnownTag(strings.TrimSpace(l.Text))) > 0 {
 			continue
